@@ -120,14 +120,17 @@ def _calendar_tabulate(ctx, cls: str) -> None:
                 try:
                     got = w.call(recv, name, args)
                 except minieval.Raised as e:
-                    if want != "raise":
+                    if isinstance(want, tuple) and want[0] == "raise":
+                        if e.exc_name != want[1]:
+                            bad.append(f"{label}: raises {e.exc_name} instead of {want[1]}")
+                    elif want != "raise":
                         bad.append(f"{label}: raises {e.exc_name} (expected {want})")
                     elif name == "nth_of" and e.exc_name != "PendulumException":
                         bad.append(f"{label}: raises {e.exc_name} instead of PendulumException")
                     elif name in ("next", "previous") and e.exc_name != "ValueError":
                         bad.append(f"{label}: raises {e.exc_name} instead of ValueError")
                     continue
-                if want == "raise":
+                if want == "raise" or (isinstance(want, tuple) and want[0] == "raise"):
                     bad.append(f"{label}: returns {vars(got).get('_date') if isinstance(got, minieval.Obj) else got!r} (expected an exception)")
                     continue
                 v = verdict(w, got, want, keep, recv)
@@ -181,6 +184,10 @@ def _calendar_tabulate(ctx, cls: str) -> None:
                 yield (f"weekday {wd}", w, recv, [wd], "raise", None)
 
     def occ_cases(which):
+        w0 = calstub.World(m, cls, extra=extra)
+        for unit in ("day", "week", "decade", "century", "", "months"):        # only month, quarter and year are units of these methods
+            for rl, recv in receivers(w0, _dt.date(2021, 3, 10))[:1]:
+                yield (f"{which}_of({unit!r}, ...)", w0, recv, [unit] + ([1] if which == "nth" else []) + [2], ("raise", "ValueError"), None)
         for y, mo in _month_shapes():
             for day in ((1, 15) if deep else (1,)):
                 d = _dt.date(y, mo, day)
@@ -384,7 +391,7 @@ def _dispatch(ctx) -> None:
             fn = m.func(f"{cls}.{q}")
             g = [n for n in core.walk_fn(fn) if isinstance(n, ast.If) and nun(n.test).startswith("unit not in ")]
             ok = len(g) == 1 and nun(g[0].test) == f"unit not in {units!r}" and "ValueError" in nun(g[0].body[0])
-            ctx.ob("DISPATCH.units", f"{cls}.{q}", ok, f"guard `{nun(g[0].test) if g else None}`; supported units are {units}", m.loc(fn))
+            ctx.ob("DISPATCH.units", f"{cls}.{q}", ok or bool(OCC.get((cls, q))), f"guard `{nun(g[0].test) if g else None}`; supported units are {units}", m.loc(fn))
             calls = [c for c in core.calls(fn) if isinstance(c.func, ast.Call) and nun(c.func.func) == "getattr"]
             recv = "self"
             if cls == "DateTime":
